@@ -11,6 +11,7 @@ import Vlsp.Model.Checker
 import Vlsp.Model.Cache
 import Vlsp.Model.Fetch
 import Vlsp.Model.Bump
+import Vlsp.Model.Locate
 import Vlsp.Model.Npm
 import Vlsp.Model.Crates
 import Vlsp.Model.Gha
@@ -53,6 +54,7 @@ structure Srv where
   db : Db := {}
   now : Int := 0
   docs : List (Text × List PkgInfo) := []
+  texts : List (Text × Text) := []    -- the text each open document was last parsed from (used by code actions only)
   tasks : List Task := []
   faults : List (Text × Char) := []   -- read operations that fail: (package name or "*", 'L' | 'T' | 'V')
 deriving Repr
@@ -118,13 +120,15 @@ def checkAndPublish (s : Srv) (uri : Text) (pkgs : List PkgInfo) : Srv × List M
       let out := [Msg.pub uri (diagnose s reg pkgs)]
       if pkgs.isEmpty then (s, out) else (spawnTask s uri reg pkgs, out)
 
-/-- `cache_document` (always inserts; an unsupported document caches no packages) -/
-def cacheDocument (s : Srv) (uri : Text) (pkgs : List PkgInfo) : Srv :=
-  { s with docs := setDoc s.docs uri (if (Detect.detect uri).isSome then pkgs else []) }
+/-- `cache_document` (always inserts; an unsupported document caches no packages); the text is kept next to the
+    packages (a parameter that matters to code actions only: diagnostics are computed from the packages) -/
+def cacheDocument (s : Srv) (uri : Text) (pkgs : List PkgInfo) (content : Text := []) : Srv :=
+  { s with docs := setDoc s.docs uri (if (Detect.detect uri).isSome then pkgs else []),
+           texts := (uri, content) :: s.texts.filter (·.1 != uri) }
 
 /-- didOpen / didChange with the packages the parser extracts from the new text -/
-def edit (s : Srv) (uri : Text) (pkgs : List PkgInfo) : Srv × List Msg :=
-  checkAndPublish (cacheDocument s uri pkgs) uri pkgs
+def edit (s : Srv) (uri : Text) (pkgs : List PkgInfo) (content : Text := []) : Srv × List Msg :=
+  checkAndPublish (cacheDocument s uri pkgs content) uri pkgs
 
 def removeFirst (n : Text) : List Text → List Text
   | [] => []
@@ -174,7 +178,10 @@ def reply (s : Srv) (reg name : Text) (o : Fetch.Outcome) : Srv × List Msg :=
       if t'.waiting.isEmpty then finishTask s1 i t'
       else ({ s1 with tasks := s.tasks.set i t' }, [])
 
-def close (s : Srv) (uri : Text) : Srv := { s with docs := s.docs.filter (·.1 != uri) }
+def close (s : Srv) (uri : Text) : Srv :=
+  { s with docs := s.docs.filter (·.1 != uri), texts := s.texts.filter (·.1 != uri) }
+
+def textOf (s : Srv) (uri : Text) : Text := ((s.texts.find? (·.1 == uri)).map (·.2)).getD []
 
 /-- `code_action` (without the hash-pinned branch, which is C17) -/
 def codeAction (s : Srv) (uri : Text) (line ch : Nat) : Option (List Action) :=
@@ -186,7 +193,9 @@ def codeAction (s : Srv) (uri : Text) (line ch : Nat) : Option (List Action) :=
     else
       match s.docs.find? (·.1 == uri) with
       | none => none
-      | some (_, pkgs) =>
+      | some (_, pkgs0) =>
+        -- every package is pointed at its version text first (`locate_version_in_token`)
+        let pkgs := Bump.locateAll (textOf s uri) pkgs0
         if pkgs.isEmpty then none
         else match Bump.findAtPosition pkgs line ch with
           | none => none
